@@ -63,6 +63,8 @@ class SimComponent(Component):
         nmax = params.get("nmax", 6)
         for _ in range(30):
             d = gen.valid_desc(rng, nmax, wmax=params.get("wmax", 3), mem_p=params.get("mem_p", 0.3))
+            if kind == "handbuilt":
+                d = gen.simple_locks(rng, d) if rng.random() < 0.6 else d
             case = {"kind": kind, "desc": d, "perm_seed": rng.randrange(1 << 30)}
             proc = self._proc(case)
             if proc is not None:
@@ -81,6 +83,8 @@ class SimComponent(Component):
 
     def _proc(self, case):
         import implrun
+        if case["kind"] == "handbuilt":
+            return self._handbuilt(case["desc"])
         tag, p = implrun.load_desc(copy.deepcopy(case["desc"]))
         if tag != "ok":
             return None
@@ -98,6 +102,64 @@ class SimComponent(Component):
             parts["ints"] = [(f[0], rng.sample(f[1], len(f[1]))) for f in parts["ints"]]
             p = implrun.mk_proc_from_parts(parts)
         return p
+
+    @staticmethod
+    def _handbuilt(d):
+        """a processor built directly from parts WITHOUT the loader's pruning: capability dead-ends,
+        connections between units sharing nothing, outputs a capability cannot reach"""
+        import implrun
+        names = [u["name"] for u in d["units"]]
+        if len({n.lower() for n in names}) != len(names):
+            return None
+        low = {n.lower(): n for n in names}
+        es = []
+        for e in d["dataPath"]:
+            if len(e) != 2 or e[0].lower() not in low or e[1].lower() not in low:
+                return None
+            a, b = low[e[0].lower()], low[e[1].lower()]
+            if a == b:
+                return None
+            if (a, b) not in es:
+                es.append((a, b))
+        # acyclic?
+        order, indeg = [], {n: sum(1 for x in es if x[1] == n) for n in names}
+        zero = [n for n in names if indeg[n] == 0]
+        while zero:
+            n = zero.pop()
+            order.append(n)
+            for a, b in es:
+                if a == n:
+                    indeg[b] -= 1
+                    if indeg[b] == 0:
+                        zero.append(b)
+        if len(order) != len(names):
+            return None
+        def unit(u):
+            caps = []
+            for c in u["capabilities"]:
+                if c.upper() not in caps:
+                    caps.append(c.upper())
+            mem = [c.upper() for c in u.get("memoryAccess", []) if c.upper() in caps]
+            return [u["name"], int(u["width"]), caps, bool(u.get("readLock", False)), bool(u.get("writeLock", False)), mem]
+        parts = {"ins": [], "outs": [], "inouts": [], "ints": []}
+        for u in d["units"]:
+            if not u["capabilities"] or u["width"] <= 0:
+                return None
+            n = u["name"]
+            preds = [a for a, b in es if b == n]
+            succs = [b for a, b in es if a == n]
+            if preds and succs:
+                parts["ints"].append((unit(u), preds))
+            elif preds:
+                parts["outs"].append((unit(u), preds))
+            elif succs:
+                parts["ins"].append(unit(u))
+            else:
+                parts["inouts"].append(unit(u))
+        try:
+            return implrun.mk_proc_from_parts(parts)
+        except Exception:  # noqa: BLE001
+            return None
 
     def run(self, case):
         import implrun
